@@ -11,12 +11,12 @@ CHECKS = {
     "C01": ("E1-small-scope", "exploration",
             "exhaustive small-scope enumeration (query corpus x databases x engines x statistics), differential oracle optimizer off vs on; plus exhaustive per-rule check: every rewrite rule x every atom plan that matches it x every database, both sides evaluated on the real executors",
             "Every query of a fixed, simplest-first corpus is executed on every database instance, engine and statistics assignment with the optimizer disabled and enabled; the two answers must agree. The enumeration is complete for the stated corpus and data domain; it is a bounded forall, not a proof.",
-            "Bounded: qgen corpus (~600 quick / ~1000 thorough queries), <=5-row tables over {NULL,0..4}; unoptimised plan is the reference; queries whose unoptimised plan cannot run are not comparable (counted as skipped). The per-rule pass (E5) applies each of the optimizer's rewrite rules once, in isolation, to every plan of a fixed atom list and compares original and rewritten plan on every database; rules that never fire on the atom list are reported as uncovered in the evidence, not as verified.",
+            "Bounded: qgen corpus (~820 quick / ~1150 thorough queries), <=5-row tables over {NULL,0..4}; unoptimised plan is the reference; queries whose unoptimised plan cannot run are not comparable (counted as skipped). The per-rule pass (E5) applies each of the optimizer's rewrite rules once, in isolation, to every plan of a fixed atom list and compares original and rewritten plan on every database; rules that never fire on the atom list are reported as uncovered in the evidence, not as verified.",
             "DESIGN.md §4 C01"),
     "C02": ("E1-small-scope", "exploration",
             "exhaustive small-scope enumeration (query corpus x databases x engines) against an independent reference implementation (SQLite)",
             "Every corpus query in the SQLite-compatible subset is executed on every database instance on both engines and compared (multiset / key sequence) with SQLite 3.40 on identical data.",
-            "Bounded as C01; trusts SQLite on the subset listed in checks/dialect.md.",
+            "Bounded as C01 (the corpus includes CASE with overlapping branches, string-valued expressions, LIMIT/OFFSET without ORDER BY judged by row count, ORDER BY on unselected keys, re-sorted ordered derived tables); trusts SQLite on the subset listed in checks/dialect.md.",
             "DESIGN.md §4 C02"),
     "C03": ("E2-history-explorer", "model_checking",
             "bounded exhaustive exploration of DDL/DML/reopen histories on the real disk engine, compared step by step with a plain reference model",
@@ -31,7 +31,7 @@ CHECKS = {
     "C05": ("E2-history-explorer", "model_checking",
             "bounded exhaustive lock-step differential exploration of statement histories, memory engine vs disk engine layouts",
             "Every statement history up to the depth bound followed by a fixed query battery is executed on the memory engine and on each disk layout; outcome classes and results must agree statement by statement.",
-            "Bounded: depth 3 (quick) / 4 (thorough) from the empty database and 2 / 3 from a churned start state (row-sets compacted to nothing, reopened twice), 3 table kinds + one table with a column of every type (depth 2 / 3), 2-5 disk layouts; error classes compared, not messages.",
+            "Bounded: 12 statement kinds (incl. INSERT..SELECT of no rows), depth 3 (quick) / 4 (thorough) from the empty database and 2 / 3 from a churned start state (row-sets compacted to nothing, reopened twice), 3 table kinds + one table with a column of every type (depth 2 / 3), 2-5 disk layouts; error classes compared, not messages.",
             "DESIGN.md §4 C05"),
     "C06": ("E1-small-scope", "exploration",
             "exhaustive small-scope enumeration of value sequences x encodings x block sizes x start rows x read/skip scripts on the real column builders and iterators, slice-arithmetic oracle",
@@ -46,7 +46,7 @@ CHECKS = {
     "C08": ("E4-gate-scheduler", "model_checking",
             "stateless model checking of the implementation: exhaustive exploration of task interleavings at instrumented yield points under a controlled scheduler, preemption-bounded (CHESS-style), with a per-state invariant",
             "For each reader/writer/compactor/vacuum workload every schedule of the real tokio tasks at the instrumented gates within the preemption bound is executed on the real engine (exact quiescence detection, paused clock, replay-checked determinism). At every quiescent state the pinned-version/file invariant is evaluated; at the end each reader's rows are compared with the table as of its pin, derived from the schedule.",
-            "Bounded: 8 workloads, 2-3 actors, preemption bound 1-2 (quick) / 2-3 (thorough), per-shard schedule cap reported when hit; interleavings only at gates on a current-thread runtime (code between gates atomic); no weak-memory or data-race coverage.",
+            "Bounded: 10-11 workloads (three of them start with delete vectors on the row-sets the compaction retires), 2-3 actors, preemption bound 1-2 (quick) / 2-3 (thorough), per-shard schedule cap reported when hit; interleavings only at gates on a current-thread runtime (code between gates atomic); no weak-memory or data-race coverage.",
             "DESIGN.md §3 E4, §4 C08"),
     "C09": ("E4-gate-scheduler", "model_checking",
             "stateless model checking of the implementation: exhaustive preemption-bounded exploration of client/compactor interleavings at instrumented yield points, final-state oracle against a reference model",
@@ -56,17 +56,17 @@ CHECKS = {
     "C10": ("E4-gate-scheduler", "model_checking",
             "stateless model checking of the implementation (preemption-bounded schedule exploration at yield points) with a brute-force serializability oracle over a reference model",
             "For each multi-session workload every schedule within the preemption bound is executed; the acknowledged statements must admit a serial order (respecting session order) that reproduces every observed result and the final tables on the reference model; no session or task panics, no deadlock, shutdown and reopen succeed and agree.",
-            "Bounded: 15 (quick) / 17 workloads incl. views / indexes racing CREATE TABLE, 2 sessions (quick) / up to 3 (thorough), <= 2 statements each, preemption bound 2/3. The clause about free-running multi-threaded runs is NOT decided (gate interleavings on a current-thread runtime only).",
+            "Bounded: 30 (quick) / 32 workloads incl. views / indexes racing CREATE TABLE and two DELETEs of the same / of different rows; 13 of them also on the memory engine (gates of Database::run only); 2 sessions (quick) / up to 3 (thorough), <= 2 statements each, preemption bound 2/3. The clause about free-running multi-threaded runs is NOT decided (gate interleavings on a current-thread runtime only).",
             "DESIGN.md §3 E4, §4 C10"),
     "C13": ("E1-small-scope", "exploration",
             "exhaustive small-scope enumeration of key-range predicates x table layouts, against rows computed from the known contents (and the unoptimised full scan)",
             "Every combination of primary-key position, key type, block layout, row-set shape, bound kind, boundary constant, residual predicate and select list of the stated domain is executed with range pushdown; results must equal the rows computed independently from the inserted data.",
-            "Bounded: keys 0..61, five key sets whose duplicates straddle every block boundary for any block capacity (pairs from even / odd positions, triples, runs longer than a block), <= 2 row-sets + deletes, one 5000-row table for 2048-row batch boundaries; SQL level only (the storage-level scan API is reached through SQL).",
+            "Bounded: keys 0..61, 154 predicates (one- and two-sided key bounds, residual ranges on another column on either side, bounds whose constant has another numeric type than the key), five key sets whose duplicates straddle every block boundary for any block capacity (pairs from even / odd positions, triples, runs longer than a block), <= 2 row-sets + deletes, one 5000-row table for 2048-row batch boundaries; SQL level only (the storage-level scan API is reached through SQL).",
             "DESIGN.md §4 C13"),
     "C14": ("E1-small-scope", "exploration",
             "exhaustive small-scope enumeration of scalar expressions x operand domains x batch lengths x evaluation contexts, against a scalar three-valued reference interpreter",
             "Every expression of the list is evaluated over columns cycling through boundary domains with NULLs in batches of the stated lengths, as projection and (booleans) inside WHERE / OR / NOT / AND; every row is compared with a scalar SQL reference; overflow cases must be errors; all binary constant expressions must fold to their run-time value.",
-            "Bounded: ~80 expressions (incl. the untyped NULL literal), domains of 6 values per type, batch lengths {1,36,63,64,65,130} (quick) / 0..200 (thorough), five sparse NULL layouts (NULLs in one 64-row bitmap word only), 22 nested arithmetic/cast expressions over all pairs of {NULL,0,+-1,INT MIN,INT MAX}; raw bits under NULL slots are reached only through computed NULLs at SQL level.",
+            "Bounded: ~85 expressions (incl. the untyped NULL literal, CASE with overlapping branches), the operand type matrix (15 binary operators x all ordered pairs of 18 operands of 11 types + 12 cast targets + 40 unary operators / functions / aggregates x 18 operands: whatever the type checker accepts must evaluate or report a data error; mirrored comparisons agree), mixed-width integer comparisons beyond the narrower type's range, domains of 6 values per type, batch lengths {1,36,63,64,65,130} (quick) / 0..200 (thorough), five sparse NULL layouts (NULLs in one 64-row bitmap word only), 22 nested arithmetic/cast expressions over all pairs of {NULL,0,+-1,INT MIN,INT MAX}; raw bits under NULL slots are reached only through computed NULLs at SQL level.",
             "DESIGN.md §4 C14"),
     "C15": ("E3-fault-enumerators", "fault_enumeration",
             "exhaustive single-fault injection at every (operator, output item, occurrence) position x {error, panic} of every statement shape",
@@ -74,14 +74,14 @@ CHECKS = {
             "Bounded: 19 statement shapes, 2-3 engine configurations, 2300-row inputs (3 chunks) and a 20-chunk input (fault positions beyond an operator's 16-slot output channel), single faults; faults on the committing DML operator's own output are excluded (after the commit point).",
             "DESIGN.md §3 E3, §4 C15"),
     "C16": ("E1-small-scope", "exploration",
-            "exhaustive small-scope enumeration: (a) runtime vs statically derived column types over the statement corpus, (b) INSERT sources x column types x constraints",
+            "exhaustive small-scope enumeration: (a) runtime vs statically derived column types over the statement corpus, (b) INSERT sources x column types x constraints, (c) multi-row VALUES lists vs the same rows inserted one by one",
             "(a) every corpus statement that executes: each returned chunk carries exactly the statically derived column kinds; (b) every combination of column type, nullability/primary-key constraint and insert source: the stored value has the declared type, is NULL only if nullable and equals the lossless conversion, or the INSERT failed.",
-            "Bounded: 10 column types (incl. VECTOR(3), INTERVAL), 22 literals + NULL/omitted/INSERT..SELECT sources; expected stored values asserted only where the conversion is unambiguous.",
+            "Bounded: 10 column types (incl. VECTOR(3), INTERVAL), 22 literals + NULL/omitted/INSERT..SELECT sources; 7 column types x all triples over 7 literals for multi-row VALUES (differential: three single-row INSERTs); expected stored values asserted only where the conversion is unambiguous.",
             "DESIGN.md §4 C16"),
     "C17": ("E1-small-scope", "exploration",
             "exhaustive small-scope enumeration of accepted statements x databases x engines x statistics, with a static well-formedness walk of every optimised plan and a guarded build/run",
             "For every statement of the corpus that the binder accepts: the optimizer terminates without panic, the optimised plan satisfies the executor's structural requirements (walked statically on the real plan with the real schema analysis), its output types equal the bound plan's, and building and running it does not panic.",
-            "Bounded: qgen corpus (incl. aggregates / windows / joins over every numeric column type and IN subqueries with computed select items) + 49 extra forms, 6 (quick) / 60 (thorough) databases, 2 engines, 2-3 statistics assignments; plus the statement-form explorer: ~180 DDL / settings / utility / odd-DML / unsupported-SQL forms alone and in ordered pairs through Database::run (no panic, session and directory usable afterwards); planning time above 2.5 s is reported (egg's wall-clock limit is uncontrolled).",
+            "Bounded: qgen corpus (incl. aggregates / windows / joins over every numeric column type and IN subqueries with computed select items) + 62 extra forms (DISTINCT ON with ORDER BY, computed columns of derived tables in join conditions, scalar subqueries over empty inputs / as sort keys), 6 (quick) / 60 (thorough) databases, 2 engines, 2-3 statistics assignments; plus the statement-form explorer: ~180 DDL / settings / utility / odd-DML / unsupported-SQL forms alone and in ordered pairs through Database::run (no panic, session and directory usable afterwards); planning time above 2.5 s is reported (egg's wall-clock limit is uncontrolled).",
             "DESIGN.md §4 C17"),
     "C18": ("E3-fault-enumerators", "fault_enumeration",
             "exhaustive byte-level corruption enumeration (bit flips, overwrites, truncations at every offset of every column/index file) with query-sequence oracle",
@@ -96,7 +96,7 @@ CHECKS = {
     "C12": ("E2-history-explorer", "model_checking",
             "bounded exhaustive history exploration on the real engine (all op sequences up to depth d x all ORDER BY/LIMIT/OFFSET queries), relational oracle",
             "Every population history up to the depth bound, on every engine/layout of the configuration list, is executed on the real engine and every ORDER BY/LIMIT/OFFSET query of the small query space is judged by the relations the property states (permutation, sortedness, slice, count, membership). Complete within the stated bounds; nothing is sampled.",
-            "Bounded: histories <= 3 (quick) / 4 (thorough) ops over 3 insert batches, 2 deletes, forced compaction; 2-column integer table; NULL-smallest ordering assumed; single session.",
+            "Bounded: histories <= 3 (quick) / 4 (thorough) ops over 3 insert batches, 2 deletes, forced compaction; 2-column integer table with the key first, without a key, and with the key as second column; ORDER BY on a key that is not selected; ordered derived tables re-sorted by another key; NULL-smallest ordering assumed; single session.",
             "DESIGN.md §4 C12"),
     "C19": ("E1-small-scope", "exploration",
             "exhaustive enumeration of all pairs/triples of a boundary value set per type, cross-checking every relation the engine derives from values",
@@ -106,7 +106,7 @@ CHECKS = {
     "C20": ("E1-small-scope", "exploration",
             "exhaustive small-scope enumeration of column types x boundary cell values x CSV options x engines, round-trip oracle",
             "Every table of the stated domain is exported with COPY TO and imported with COPY FROM under the same options; the two tables must be equal as multisets.",
-            "Bounded: 12 types (incl. INTERVAL, BLOB, VECTOR), 1-2 columns, boundary values (NULL, '', delimiter / quote / newline / backslash / edge whitespace in strings, extremes), 7 option sets (delimiter, quote, header, escape), one 1030-row table.",
+            "Bounded: 12 types (incl. INTERVAL, BLOB, VECTOR), 1-2 columns, boundary values (NULL, '', delimiter / quote / newline / backslash / edge whitespace in strings, extremes, intervals of 24 hours and more), 7 option sets (delimiter, quote, header, escape), one 1030-row table; tables compared as printed and by value (= against the inserted literals); export of a query result (COPY (SELECT .. WHERE ..) TO) over a two-row-set table x 6 filters x 4 option sets.",
             "DESIGN.md §4 C20"),
 }
 NOT_YET = {}
